@@ -279,6 +279,11 @@ func convertOutcome[T any](kind string, recv *T, to currency.Code, view func(*T)
 		return o
 	}
 	o.Result = view(reread(res)) // what the caller is handed, before anything below touches it
+	if beforeDoc != nil && conversionOutsideDomain(view(beforeDoc), o.Result, to) {
+		// a product with the rate, or a figure of the converted document, beyond 2^52 units: the float
+		// detour of num.Amount is no longer exact there and int64 can overflow (C05's domain)
+		return OpOutcome{Op: o.Op, Convert: true, Skipped: "outside the 2^52 domain"}
+	}
 	o.Stale = fixpoint(res)
 	if beforeDoc != nil {
 		o.Conv, o.ConvLine = conversionExact(view(beforeDoc), o.Result, to)
@@ -541,4 +546,117 @@ func GenOps(r *rand.Rand, o GenOpts) *Doc {
 		}
 	}
 	return d
+}
+
+// OutsidePaymentDomain: a percentage advance or due date whose product with the
+// total it is taken of lies beyond 2^52 units (the float detour of
+// Percentage.Of is exact only below; C05's domain).  For generated descriptions
+// the model decides the domain; the documents an operation hands back are judged
+// here, like OutsideExactDomain does for their tax rows.
+func OutsidePaymentDomain(inv *bill.Invoice) bool {
+	if inv.Totals == nil || inv.Payment == nil {
+		return false
+	}
+	lim := new(big.Int).Lsh(big.NewInt(1), 52)
+	over := func(a num.Amount, p *num.Percentage) bool {
+		if p == nil {
+			return false
+		}
+		v := new(big.Int).Mul(big.NewInt(a.Value()), big.NewInt(p.Base().Value()))
+		return v.Abs(v).Cmp(lim) >= 0
+	}
+	for _, a := range inv.Payment.Advances {
+		if over(inv.Totals.TotalWithTax, a.Percent) || over(inv.Totals.Payable, a.Percent) {
+			return true
+		}
+	}
+	if inv.Payment.Terms != nil {
+		for _, dd := range inv.Payment.Terms.DueDates {
+			if over(inv.Totals.Payable, dd.Percent) || over(inv.Totals.TotalWithTax, dd.Percent) {
+				return true
+			}
+		}
+	}
+	return false
+}
+
+// conversionOutsideDomain: some amount of money of the receiver times the rate
+// at two extra decimals, or some figure the converted document presents (or a
+// price × quantity product behind it), lies beyond 2^52 units.
+func conversionOutsideDomain(before, after *bill.Invoice, to currency.Code) bool {
+	lim := new(big.Int).Lsh(big.NewInt(1), 52)
+	big2 := func(a, b int64) bool {
+		v := new(big.Int).Mul(big.NewInt(a), big.NewInt(b))
+		return v.Abs(v).Cmp(lim) >= 0
+	}
+	if ex := currency.MatchExchangeRate(before.ExchangeRates, before.Currency, to); ex != nil {
+		over := func(a num.Amount) bool {
+			v := new(big.Int).Mul(big.NewInt(a.Value()), big.NewInt(ex.Amount.Value()))
+			v.Mul(v, big.NewInt(100))
+			return v.Abs(v).Cmp(lim) >= 0
+		}
+		overP := func(a *num.Amount) bool { return a != nil && over(*a) }
+		for _, l := range before.Lines {
+			if l.Item != nil && overP(l.Item.Price) {
+				return true
+			}
+			for _, d := range l.Discounts {
+				if over(d.Amount) {
+					return true
+				}
+			}
+			for _, d := range l.Charges {
+				if over(d.Amount) {
+					return true
+				}
+			}
+		}
+		for _, d := range before.Discounts {
+			if over(d.Amount) {
+				return true
+			}
+		}
+		for _, d := range before.Charges {
+			if over(d.Amount) {
+				return true
+			}
+		}
+		if before.Payment != nil {
+			for _, a := range before.Payment.Advances {
+				if over(a.Amount) {
+					return true
+				}
+			}
+		}
+	}
+	if after == nil {
+		return false
+	}
+	huge := func(a *num.Amount) bool { return a != nil && big2(a.Value(), 1) }
+	for _, l := range after.Lines {
+		if huge(l.Sum) || huge(l.Total) {
+			return true
+		}
+		if l.Item != nil && l.Item.Price != nil {
+			// the sum is price (raised to at least the currency's decimals + 2) × quantity
+			p := l.Item.Price.RescaleUp(subOf(to) + 2)
+			if big2(p.Value(), l.Quantity.Value()) {
+				return true
+			}
+		}
+		for _, s := range l.Breakdown {
+			if huge(s.Sum) || huge(s.Total) {
+				return true
+			}
+			if s.Item != nil && s.Item.Price != nil && big2(s.Item.Price.RescaleUp(subOf(to)+2).Value(), s.Quantity.Value()) {
+				return true
+			}
+		}
+	}
+	if t := after.Totals; t != nil {
+		if huge(&t.Sum) || huge(&t.Total) || huge(&t.TotalWithTax) || huge(&t.Payable) || huge(&t.Tax) || huge(t.Discount) || huge(t.Charge) {
+			return true
+		}
+	}
+	return false
 }
